@@ -114,6 +114,15 @@ func (c01) Gen(rng *rand.Rand, tier string, idx int) Case {
 	size := sizes[rng.Intn(len(sizes))]
 	oooChoices := []int64{0, size / 2, size, 2*size + 1, 5 * size}
 	ooo := oooChoices[rng.Intn(len(oooChoices))]
+	if idx%12 == 11 {
+		// SQL-level stage: whole pipeline through the public API
+		szs := []int64{1000, 500, 60000}
+		sz := szs[rng.Intn(len(szs))]
+		o := []int64{0, sz / 2, sz, 2*sz + 1}[rng.Intn(4)]
+		c.Cfg = [][]string{{"kind", "sqltumbling"}, {"size", itoa(sz)}, {"ooo", itoa(o)}, {"late", "0"}, {"now", "0"}}
+		genSQLWindow(rng, &c, sz, o)
+		return c
+	}
 	if rng.Intn(6) == 0 {
 		// processing time: explicit timestamps through TsProp, Trigger() as the timer
 		c.Cfg = [][]string{{"kind", "tumbling"}, {"mode", "pt"}, {"size", itoa(size)}, {"ooo", "0"}, {"late", "0"}, {"now", "0"}}
@@ -129,12 +138,21 @@ func (c01) Gen(rng *rand.Rand, tier string, idx int) Case {
 				if t < first+k*size {
 					t = first + k*size
 				}
-				c.Ops = append(c.Ops, []string{"pttick"})
+				op := []string{"pttick"}
+				if rng.Intn(3) == 0 { // an Add during the hand-off of the fired window (inside the callback)
+					id++
+					op = append(op, "0:"+strconv.Itoa(id)+":"+itoa(t))
+					c.Stat = append(c.Stat, "pt-gap-add")
+				}
+				c.Ops = append(c.Ops, op)
 			} else {
 				id++
 				t += rng.Int63n(size/2 + 1)
 				c.Ops = append(c.Ops, []string{"add", strconv.Itoa(id), itoa(t)})
 			}
+		}
+		for j := 0; j < 3; j++ {
+			c.Ops = append(c.Ops, []string{"pttick"})
 		}
 		c.Stat = append(c.Stat, "processing-time")
 		return c
@@ -145,4 +163,9 @@ func (c01) Gen(rng *rand.Rand, tier string, idx int) Case {
 	return c
 }
 
-func (c01) Exec(c Case) [][][]string { return execWindow(c) }
+func (c01) Exec(c Case) [][][]string {
+	if isSQLWindowCase(c) {
+		return execSQLWindow(c)
+	}
+	return execWindow(c)
+}
